@@ -7,6 +7,26 @@ ids = [p["id"] for p in props]
 
 # id -> (category, technique, level text, level note, design ref)
 CHECKS = {
+ "C02": ("model_checking",
+         "explicit-state BFS (deviation-bounded) over the real miner+power actors under the SMALL policy with a sector-status model in lock-step",
+         "From several base states (sectors in one or two deadlines, fresh or aged) the default schedule 'prove every partition when its window opens, real cron every epoch' is walked to the horizon and every placement of up to k deviations (skip/late/bad/partial PoSt, fault and recovery declarations, terminations, disputes, compaction, new on-boarding, reused sector numbers) at every epoch offset is explored; after every message and tick the credited power must equal the sum over sectors that an independent sector-status model says are proven, healthy and unexpired, the model's statuses must equal the partition bit-fields, expirations are adopted only when the protocol's rules allow/require them, and the network totals must equal the claim sums under the consensus-minimum rule.",
+         "SMALL policy (24-epoch proving period, 2 KiB sectors, partitions of 2): says nothing about mainnet-only constants; mcvm stands in for the FVM; fake proofs; acceptance of individual messages is adopted, their effects are not.",
+         "DESIGN.md §3 C02"),
+ "C03": ("model_checking",
+         "explicit-state BFS (deviation-bounded) over the real miner+power actors with recomputed collateral ledgers",
+         "Same walk as C02; after every message and tick each miner's initial-pledge total is recomputed from its live and awaiting-termination sectors, the pre-commit deposit total from the pre-commit map, locked funds from the vesting table, and the power actor's pledge total must equal the sum over miners of pledge + vesting funds and be non-negative (modulo known finding KF-1: the creation deposit is never reported).",
+         "SMALL policy; known finding KF-1 adjusts the network-total formula by the constant creation deposits; pre-commit deposits are only exercised by the thorough alphabet.",
+         "DESIGN.md §3 C03, §2.8"),
+ "C04": ("model_checking",
+         "explicit-state BFS (deviation-bounded) over the real miner actor with every partition/deadline summary recomputed from the individual sectors",
+         "Same walk as C02; after every message and tick, for every partition and deadline of every miner: set nesting/exclusion of live/faulty/recovering/unproven/terminated, the four power memos, every expiration-queue entry (each live sector exactly once, on-time at its quantised expiration, early only if faulty and strictly earlier, per-entry active/faulty power, pledge, fee deduction), deadline counts, powers, daily fee, early-termination and expiration indexes are recomputed from the SectorOnChainInfos; every on-chain sector is in exactly one partition of one deadline; a sector number is never committed twice.",
+         "SMALL policy; at most 4-5 sectors; the component-level exhaustive layer over arbitrary inputs is not part of this claim yet.",
+         "DESIGN.md §3 C04"),
+ "C05": ("model_checking",
+         "explicit-state BFS (deviation-bounded) with trace observers on every real cron tick",
+         "Same walk as C02; every sub-invocation of every end-of-epoch cron tick must succeed, nothing may panic, no call may report the balance-invariants-broken code, no miner may lose its claim; after every step each miner with funds at stake has exactly one pending proving-deadline callback at the last epoch of the deadline that contains the next epoch and its recorded deadline is that one (modulo known finding KF-2 for never-committed miners); expirations are required by the first deadline end after the sector's expiration.",
+         "SMALL policy; two miners; fault injection inside the tick and same-epoch deal scheduling are not part of this claim yet.",
+         "DESIGN.md §3 C05, §2.8"),
  "C06": ("model_checking",
          "explicit-state BFS over the real market actor with a reference escrow ledger in lock-step",
          "Every history up to the depth bound of deposits, withdrawals (5 amounts x 4 callers x client/provider), publications of batches with valid/duplicate/foreign/badly-signed deals, activations through both entry points, settlements, terminations and time steps over deal boundaries is executed on the real market (real miner actors as providers); after every step each party's escrow and locked balance, the market-wide totals, the burnt amount and every withdrawal's amount and recipient must equal a reference ledger in which locked = sum over unfinished deals of collateral + unpaid fee.",
